@@ -94,6 +94,11 @@ func buildDnl(cfgName string) explore.System {
 		// two names x two nonces; every clock step with and without a reaper pass behind it
 		s.keys = []dnlKey{{"/a", 0x3001}, {"/a", 0x3002}, {"/a/b", 0x3001}, {"/a/b", 0x3002}}
 		ticks, advs = []int{4, 7, 10}, []int{4, 7, 10}
+	case "edge":
+		// boundary values of the 32-bit nonce range (0 is a legal nonce, not "no nonce"); the list
+		// keys on hash(name) + nonce, so 0 and 2^32-1 are the ends of one name's key range
+		s.keys = []dnlKey{{"/a", 0}, {"/a", 0xFFFFFFFF}, {"/a/b", 0}, {"/a/b", 1}}
+		ticks, advs = []int{4, 7, 10}, []int{4, 7, 10}
 	case "tiny":
 		// the alphabet of the history search without de-duplication: same name, two nonces
 		s.keys = []dnlKey{{"/a", 0x3001}, {"/a", 0x3002}}
